@@ -34,8 +34,8 @@ def sweep(ctx, dialect, maxn, exh):
         shutil.rmtree(d, ignore_errors=True)
 
 
-def big_payload(ctx):
-    """known finding C06-a: an element of 128 bytes or more (payload size is read as a signed byte)"""
+def big_payload(ctx, n):
+    """elements that make the payload 128..255 bytes long (the size byte is unsigned since the repair fixed: C06-a; a regression is a violation)"""
     rng = ctx.rng
     ds = synth.sweep_defset(elem=('string',)); d = synth.write_defset(ds, rng)
     try:
@@ -47,18 +47,18 @@ def big_payload(ctx):
         lt = props[li][1]; old = [('s', b'a'), ('s', b'b')]
         state = bytes([1, li]) + gen_types.wire_of(lt, old)
         h.emit('EntityCreate', head + synth.binstream(state), 'create'); h.ensure_entity(eid, 'Thing'); h.ents[eid]['client']['lst'] = (lt, old)
-        new = ('s', b'x' * 130)
+        new = ('s', b'x' * n)
         payload = synth.pack_bits([(1, 1), (li, synth.bits_required(len(props))), (0, 1), (1, 1)]) + gen_types.wire_of(('string',), new)
         h.emit('NestedProperty', struct.pack('<IbB', eid, 0, len(payload)) + bytes(3) + payload, 'nested-set')
         old[1] = new
         lib, subs = synth.run_library('wows', d, h.stream())
         fin = [l for l in synth.split(lib)[2] if l.startswith('P client lst')]
         want = 'P client lst ' + synth.canon_struct(lt, old)
-        ctx.case(('big-payload',))
+        ctx.case(('big-payload', n))
         if fin != [want]:
             ctx.deviation('nested-payload>=128', {'class': 'nested-payload>=128'},
                           dict(kind='nested-big-payload', implementation=fin, expected=want, payload_len=len(payload),
-                               how='NestedProperty packet whose payload (bit path + one 130-byte STRING element) is 134 bytes long'))
+                               how='NestedProperty packet whose payload (bit path + one long STRING element) is %d bytes long' % len(payload)))
     finally:
         shutil.rmtree(d, ignore_errors=True)
 
@@ -74,7 +74,7 @@ def run(ctx):
     for dialect in (('wows', 'wot') if q else ('wows', 'wows126', 'wot')):
         ok &= sweep(ctx, dialect, 40, 4 if q else 6)
     ctx.obligation('correspondence: library = extracted model on the nested sweeps', ok)
-    big_payload(ctx)
+    for n in (122, 123, 124, 125, 130, 200, 249, 250): big_payload(ctx, n)     # payload lengths 126..254 around the signed-byte boundary
     worldcheck.run_histories(ctx, 'C06', n_defsets=8 if q else 60, hist_per_set=3, sizes=[80, 250] if q else [80, 250, 700],
                              dialects=('wows', 'wows126', 'wot'))
     recordings.payload_check(ctx, 'C06', quick_n=3)
